@@ -1,4 +1,6 @@
 import Driver.VMStage
+import Driver.FrontStage
+import Driver.LRStage
 
 open Theo.Drv
 
@@ -6,6 +8,13 @@ def handle (line : String) : String :=
   let ws := (line.trimAscii.toString.splitOn " ").filter (· ≠ "")
   match ws with
   | "VM" :: rest => handleVM rest
+  | "LEX" :: rest => handleLex rest
+  | "SCAN" :: rest => handleScan rest
+  | "EXTRACT" :: rest => handleExtract rest
+  | "APPLY" :: rest => handleApply rest
+  | "PARSE" :: rest => handleParse rest
+  | "GEN" :: rest => handleGen rest
+  | "LR" :: rest => handleLR rest
   | _ => "BADREQ"
 
 partial def loop (h : IO.FS.Stream) (out : IO.FS.Stream) : IO Unit := do
